@@ -118,8 +118,54 @@ class PathEmit:
                     break
                 pre.append(st)
             if inner_def is None:
+                # the emission generator under another name, or moved out of the function: a nested generator of any name, else a
+                # generator method of the class / function of the module that the host calls - its parameters are bound to the
+                # call's arguments in the host's state
+                pre = []
+                for st in body:
+                    if isinstance(st, ast.FunctionDef) and any(isinstance(x, (ast.Yield, ast.YieldFrom)) for x in ast.walk(st)):
+                        inner_def = st
+                        break
+                    pre.append(st)
+            binds: List[ast.stmt] = []
+            if inner_def is None:
+                pre = []
+                for st in body:
+                    found = None
+                    for c in ast.walk(st):
+                        if not isinstance(c, ast.Call):
+                            continue
+                        cand = None
+                        if isinstance(c.func, ast.Attribute) and isinstance(c.func.value, ast.Name) and c.func.value.id == "self" and self.f.cls is not None:
+                            cand = self.f.cls.method(c.func.attr)
+                        elif isinstance(c.func, ast.Name) and c.func.id in self.mod.functions:
+                            cand = self.mod.functions[c.func.id]
+                        if cand is not None and cand is not self.f and any(isinstance(x, (ast.Yield, ast.YieldFrom)) for x in ast.walk(cand.node)):
+                            found = (c, cand)
+                            break
+                    if found:
+                        call, callee = found
+                        params = [a.arg for a in callee.node.args.args]
+                        if params and params[0] in ("self", "cls") and isinstance(call.func, ast.Attribute):
+                            params = params[1:]
+                        if len(call.args) > len(params) or any(isinstance(a, ast.Starred) for a in call.args):
+                            raise AnalysisError(f"{self.f.fq}: cannot bind the arguments of {norm(call.func)}")
+                        bound = dict(zip(params, call.args))
+                        for k in call.keywords:
+                            if k.arg is None:
+                                raise AnalysisError(f"{self.f.fq}: cannot bind the arguments of {norm(call.func)}")
+                            bound[k.arg] = k.value
+                        for pn, av in bound.items():
+                            if not (isinstance(av, ast.Name) and av.id == pn):
+                                binds.append(ast.copy_location(ast.Assign(targets=[ast.Name(id=pn, ctx=ast.Store())], value=av, lineno=call.lineno), call))
+                        inner_def = callee.node
+                        break
+                    pre.append(st)
+            if inner_def is None:
                 raise AnalysisError(f"nested function {self.inner} not found in {self.f.fq}")
             states = self.block(pre, states, emit=False)
+            if binds:
+                states = self.block(binds, states, emit=False)
             for s in states:
                 s.returned = False
             states = self.block(inner_def.body, states, emit=True)
